@@ -1,7 +1,8 @@
-(** * C10: with the candidate repair of CsgTree::exchange the soundness
-    theorems hold for the function itself -- no extra check, no hypothesis
-    "the check passes".  NOT about the code in /repo (see CsgFixed.v); not
-    reachable from Properties_C10.v until the repair is committed. *)
+(** * C10: soundness of CsgTree::exchange (as repaired in /repo d70f3c2, model
+    CsgFixed.v) and of replace_and_simplify / simplify built on it: the
+    theorems hold for the functions themselves -- no extra check, no
+    hypothesis "the check passes" (compare ReplaceProofs.v, which is about
+    the code BEFORE the repair). *)
 From Coq Require Import List Arith Bool Lia.
 From Celer Require Import C10.Csg C10.CsgProofs C10.ReplaceProofs C10.CsgFixed.
 Import ListNotations.
@@ -334,5 +335,19 @@ Proof.
   eapply simplify_loop_fx_sound; eauto.
 Qed.
 
-(** the two witnesses no longer lose the order (R1: user exchange; R3:
-    replace_and_simplify alone): see PropertiesFixed.v *)
+(** the repaired function = the function before the repair wherever the
+    latter passed the extra topological check of the old model *)
+Lemma exchange_fx_agrees : forall t i n r,
+  exchange true t i n = Ok r -> exchange_fx t i n = Ok r.
+Proof.
+  intros t i n r H. unfold exchange in H. unfold exchange_fx.
+  destruct (expect (false_id <? i)); simpl in *; try discriminate.
+  destruct (expect (user_node_valid i n)); simpl in *; try discriminate.
+  destruct (simplify_node t n) as [r0| | |]; simpl in *; try discriminate.
+  destruct (get_node t i) as [old| | |]; simpl in *; try discriminate.
+  destruct (match r0 with Some x => x | None => n end); auto;
+  destruct (ids_find _ (ids t)) as [j|]; auto;
+  destruct (j =? i); auto; destruct (i <? j); auto;
+  destruct (get_node t j) as [hi| | |]; simpl in *; try discriminate;
+  destruct (children_ltb i hi); simpl in *; try discriminate; auto.
+Qed.
